@@ -1,5 +1,6 @@
 // compsim plan generator
 #include "modes.hpp"
+#include "cont.hpp"
 
 using namespace sim;
 
@@ -155,6 +156,20 @@ namespace cs
         else if (profile == "C10")
         {
             p.set("mode", "cont");
+            std::vector<std::string> names;
+            for (auto& kv : cont_registry())
+                names.push_back(kv.first);
+            p.set("cont", names[r.below(names.size())]);
+            p.set("end", (long long)r.below(4));
+            unsigned fault_pct = r.chance(1, 3) ? r.pick<unsigned>({3, 10}) : 0;
+            static const char* kinds[] = {"ins", "ins", "ins", "ins", "era", "era", "clr", "cpa", "mva",
+                                          "swp", "cpc", "mvc", "cpx", "spl", "spl", "rsv"};
+            for (std::size_t i = 0; i < len; ++i)
+            {
+                auto k = kinds[r.below(sizeof kinds / sizeof *kinds)];
+                p.add(k, {(long long)r.below(4), (long long)r.below(1000), (long long)r.below(1000)},
+                      fault_pct && r.below(100) < fault_pct ? int(r.range(1, 3)) : 0);
+            }
         }
         return p;
     }
